@@ -81,3 +81,33 @@ func H_C09_keep_none() {
 	zzrt.Assert(!o2.CarryingUnknownFields() && !o2.Inn.CarryingUnknownFields(), "nothing unknown in data of the same version")
 	zzrt.Cover("end")
 }
+
+
+// H_C09_keep_long: an added (unknown to the older code) list of n elements, n around the
+// nesting budget of the unknown-field codec, survives read + re-write by the older code.
+func H_C09_keep_long(n int) {
+	nr := nw.NewRoot()
+	nr.R = zzrt.Int32("r")
+	c := make([]int32, n)
+	for i := range c {
+		c[i] = int32(i)
+	}
+	c[0], c[n-1] = zzrt.Int32("first"), zzrt.Int32("last")
+	nr.Inn = &nw.Inner{A: 1, C: c}
+	nr.Extra = &nw.Inner{A: 2, C: c[:n/2]}
+	mm := map[int32][]string{}
+	var strs []string
+	for i := 0; i < n; i++ {
+		strs = append(strs, "s")
+	}
+	mm[5] = strs
+	nr.Mm = mm
+	o := od.NewRoot()
+	zzrt.Assert(o.Read(zzProto(zzBytes(nr))) == nil, "the older version reads a long unknown list without error")
+	n2 := nw.NewRoot()
+	zzrt.Assert(n2.Read(zzProto(zzBytes(o))) == nil, "the newer version reads what the older version re-wrote")
+	zzrt.Assert(len(n2.Inn.C) == n && n2.Inn.C[0] == c[0] && n2.Inn.C[n-1] == c[n-1] && n2.Inn.C[n/2] == int32(n/2), "long list preserved")
+	zzrt.Assert(n2.Extra != nil && len(n2.Extra.C) == n/2, "long list inside an unknown struct preserved")
+	zzrt.Assert(len(n2.Mm[5]) == n, "long list inside an unknown map preserved")
+	zzrt.Cover("end")
+}
